@@ -159,7 +159,7 @@ macro_rules! __variant {
       pub mod $m {
          #![allow(unused_imports, dead_code, unused_variables, non_camel_case_types, clippy::all)]
          use super::*;
-         ::ascent::$mac! {
+         ::vrespan::respan! { $mac
             $($pattr)*
             pub struct P;
             $( $(#[$attr])* $kind $rel($($ty),*); )*
